@@ -33,6 +33,22 @@ def cases(tier, seed):
                 if tier == "quick" and nb >= 2 and i % 4 and not (nb == 3 and rule in ("TopTwo", "CondoBorda", "Alaska") and i % 2 == 0):
                     continue
                 cs.append((rule, cands, bl, 1 + i % 3, ("random", "borda", "first_place")[i % 3]))
+    # three-way first-place ties (each candidate first on one ballot): the secondary tally often separates only some of them
+    for cands, bl in gen.profiles_exhaustive(3, 3, [F(1)]):
+        if len({next(iter(r[0])) for r, _ in bl}) == 3:
+            i += 1
+            for rule in ("Plurality", "SNTV"):
+                cs.insert(0, (rule, cands, bl, 1 + i % 2, ("borda", "borda", "random")[i % 3]))
+    # tallies closer than double precision are not ties: no tiebreak may be recorded, nothing may depend on the seed
+    eps = F(1, 10 ** 20)
+    one = lambda c: (frozenset([c]),)
+    c3 = gen.NAMES[:3]
+    for bl in ([(one("A"), F(1)), (one("B"), 1 + eps), (one("C") + one("A"), F(1, 2))],
+               [(one("A") + one("B"), F(1)), (one("B") + one("C"), 1 + eps), (one("C") + one("A"), 1 + 2 * eps)],
+               [(one("A"), F(1, 3)), (one("B"), F(1, 3) + eps), (one("C"), F(1, 3) - eps)]):
+        for rule in ("Plurality", "Borda", "IRV", "STV", "STV1", "TopTwo", "Approval"):
+            for m in (1, 2):
+                cs.insert(0, (rule, c3, bl, m, "random"))
     # runoff / stage ties that only appear after transfers: 3 ballots with weights up to 3
     k = 0
     for cands, bl in gen.profiles_exhaustive(3, 3, [F(1), F(2), F(3)]):
